@@ -241,10 +241,12 @@ def gen_cfg(rng, cls, big):
             cfg["spread_form"] = "none"
         elif u < 0.25:
             cfg["spread_form"], cfg["spread"] = "default_value", SPREAD_DEFAULT[cls]
+        elif u < 0.33:     # a scalar that is some OTHER kernel's default (1 for sigma / k, 2 for shape): it is a value, not "use the default"
+            cfg["spread_form"], cfg["spread"] = "float", float(sorted(set(SPREAD_DEFAULT.values()) | {1.0, 2.0})[int(rng.integers(0, 2))])
         elif u < 0.45:
             cfg["spread_form"], cfg["spread"] = "float", float(np.round(rng.uniform(0.2, 6.0), 4))
         elif u < 0.55:
-            cfg["spread_form"], cfg["spread"] = "int", int(rng.integers(2, 7))
+            cfg["spread_form"], cfg["spread"] = "int", int(rng.integers(1, 7))
         elif u < 0.9 or lay != "vec" or n == 1:
             cfg["spread_form"], cfg["spread"] = "array", [float(v) for v in np.round(rng.uniform(0.2, 6.0, size=n), 4)]
         else:
@@ -316,6 +318,20 @@ def judge(cfg, method, aw, classes, stats=None):
         return ("%s:not-pure" % name,
                 "%s gives a different answer after loss/diff_loss/diff2Loss were evaluated on the same object: first %r, then %r"
                 % (name, list(vals)[:3], (list(vals2)[:3] if not err2 else err2)))
+    # ... and of the CONTENTS of the prediction, not of the array object: the same buffer updated in place (what an
+    # optimiser loop does) must give what a fresh kernel gives on the new contents
+    yhat_new = np.asarray(yhat) * 1.0625 + 0.03125
+    yhat[...] = yhat_new
+    vals3, shp3, err3 = call(obj, method, yhat, aw)
+    try:
+        obj_f, _ = construct(cfg, classes)
+        vals4, shp4, err4 = call(obj_f, method, np.array(yhat_new), aw)
+    except Exception as e:                     # noqa: BLE001
+        vals4, shp4, err4 = None, None, str(e)
+    if not err4 and (err3 or tuple(shp3) != tuple(shp4) or any((a != b) and not (a != a and b != b) for a, b in zip(vals3, vals4))):
+        return ("%s:stale-prediction" % name,
+                "%s on a prediction array updated in place gives %r, a fresh kernel on the same contents gives %r "
+                "(the first call saw %r)" % (name, (list(vals3)[:3] if not err3 else err3), list(vals4)[:3], list(vals)[:3]))
     if stats is not None:
         stats[name] = max(stats.get(name, 0.0), worst)
     return None
